@@ -47,6 +47,20 @@ def fconv_harnesses():
                              solver="cadical", include_env=("log_stub", "memfile"), timeout=600, functions=[fn + "_array"], bounds="one element, every finite value (non-clipping variants: scaled value within the target range), scale = %s" % sexpr))
     return out
 HARNESSES += fconv_harnesses()
+def fwrap_harnesses():
+    out = []
+    for cfile, init, fmt, ft, nd, pfx in (("double64.c", "double64_init", "(SF_FORMAT_WAV|SF_FORMAT_DOUBLE)", "double", "nondet_double", "d"),
+                                          ("float32.c", "float32_init", "(SF_FORMAT_WAV|SF_FORMAT_FLOAT)", "float", "nondet_float", "f")):
+        for sel in ("SEL_WR_INT", "SEL_WR_SHORT", "SEL_RD_INT", "SEL_RD_SHORT"):
+            d = {sel: 1, "CODEC_FILE": '"%s"' % cfile, "CODEC_INIT": init, "FMT": fmt, "FT": ft, "ND_FT": nd, "MF_CAP": 16, "MF_MAXIO": 16, "LIBSNDFILE_VERIF_BUFFER_LEN": 32,
+                 "X2I": pfx + "2i_array", "X2I_CLIP": pfx + "2i_clip_array", "X2S": pfx + "2s_array", "X2S_CLIP": pfx + "2s_clip_array"}
+            out.append(H("fwrap.%s.%s" % (cfile[:-2], sel[4:].lower()), "C02/fwrap.c", link=["common"], stubs=["psf_log_printf", "psf_memset"], defines=d, unwind=6,
+                         unwindset=["psf_fread.0:17", "psf_fwrite.0:17", "psf_memset.0:65"], checks="mem", solver="cadical",
+                         include_env=("log_stub", "memfile", "memset_model", "libm_model"), timeout=900,
+                         tiers=("thorough",) if (cfile == "double64.c" and sel == "SEL_RD_SHORT") else ("quick", "thorough"),
+                         functions=[init, "host_read_%s2i/s" % pfx, "host_write_i/s2%s" % pfx], bounds="one item, every int/short value resp. stored values within +-1e9, scale/clip flags symbolic, file maximum 1.0"))
+    return out
+HARNESSES += fwrap_harnesses()
 
 META = {"assumptions": ["float->int without clipping is only checked where lrint(x*scale) fits an int (C conversion otherwise unspecified)",
                         "NaN/Inf inputs excluded", "goto-cc build uses lrint/lrintf (not the SSE2 intrinsics)"],
